@@ -392,7 +392,7 @@ def build(case, G):
         kw["error_scaling"] = {(x if node else tuple(x)): s for x, s in case["scaling"]}
     if case.get("npo"):
         inner = getattr(fp, name)
-        crit = {case["npo"]: (True if case["npo"] == "stop_on_first_feasible" else 1 if case["npo"] == "stop_on_delta_abs" else 0.5)}
+        crit = {case["npo"]: (True if case["npo"] == "stop_on_first_feasible" else 100 if case["npo"] == "stop_on_delta_abs" else 1.0)}
         return fp.NumPathsOptimization(model_type=inner, min_num_paths=1, max_num_paths=NPO_MAX, G=G, **crit, **kw)
     if name in DAG_K or (name in CYC_K and case["k"] is not None):
         kw["k"] = case["k"]
